@@ -727,8 +727,11 @@ class MyPyAstVisitor:
         unanalyzed_type: mp_types.Type | None,
         is_static: bool = True,
     ) -> list[Attribute]:
-        assert isinstance(lvalue, mp_nodes.NameExpr | mp_nodes.MemberExpr | mp_nodes.TupleExpr)
         attributes: list[Attribute] = []
+
+        # Other assignment targets, e.g. subscripts like self.data["key"] = 1, do not define attributes
+        if not isinstance(lvalue, mp_nodes.NameExpr | mp_nodes.MemberExpr | mp_nodes.TupleExpr):
+            return attributes
 
         if hasattr(lvalue, "name"):
             if self._is_attribute_already_defined(lvalue.name):
@@ -741,8 +744,9 @@ class MyPyAstVisitor:
         elif hasattr(lvalue, "items"):
             lvalues = list(lvalue.items)
             for lvalue_ in lvalues:
-                if not hasattr(lvalue_, "name"):  # pragma: no cover
-                    raise AttributeError("Expected value to have attribute 'name'.")
+                if not hasattr(lvalue_, "name"):
+                    # e.g. starred or subscripted items of a tuple assignment
+                    continue
 
                 if self._is_attribute_already_defined(lvalue_.name):
                     continue
